@@ -104,9 +104,36 @@ static int g_n0 = 0;
 static String makeN(const char* f, int n, int t0, int t1, FArg* a0, FArg* a1) { DISPATCH(CTOR_N) }
 static String makeF(const char* f, int n, int t0, int t1, FArg* a0, FArg* a1) { DISPATCH(CTOR_F) }
 
+static bool hexok(const std::string& h)
+{
+	if (h == "-") return true;
+	if (h.size() % 2) return false;
+	for (size_t i = 0; i < h.size(); i++) if (!isxdigit((unsigned char)h[i])) return false;
+	return true;
+}
+
+// ops whose arguments are hex byte strings (position mask: bit k = argument k+1 is hex); malformed hex is a
+// protocol error answered like the model driver does, never passed to the library
+static bool argsok(const Toks& t)
+{
+	static const char* all[] = {"new", "newc", "assign", "append", "last", "contains", "starts", "ends", "cmp", "concat",
+		"rconcat", "split", "splitjoin", "join", "replace", "atoi", "atol", 0};
+	const std::string& op = t[0];
+	for (int k = 0; all[k]; k++)
+		if (op == all[k]) { for (size_t i = 1; i < t.size(); i++) if (!hexok(t[i])) return false; return true; }
+	if (op == "indexof") return t.size() < 2 || hexok(t[1]);
+	if (op == "fmt" || op == "fmtf") {
+		size_t k = op == "fmt" ? 2 : 1;
+		if (t.size() > k && !hexok(t[k])) return false;
+		for (size_t i = k + 1; i < t.size(); i++) if (t[i].compare(0, 2, "s:") == 0 && !hexok(t[i].substr(2))) return false;
+	}
+	return true;
+}
+
 static std::string step(const Toks& t)
 {
 	const std::string& op = t[0];
+	if (!argsok(t)) return "bad-op";
 	String& c = *cur;
 	size_t na = t.size() - 1;
 	// ---- construction
